@@ -289,9 +289,8 @@ func ApplyTx(state State, env *BlockEnv, bc *BlockCtx, tx *Tx, tracer func(*Step
 		addr := CreateAddress(tx.From, tx.Nonce)
 		res.Created = &addr
 		w.warmAddr[addr] = true
-		if acc := w.accts[addr]; acc != nil && (acc.Nonce != 0 || len(acc.Code) != 0 || len(acc.Storage) != 0) {
+		if e.collides(addr) {
 			r = Result{Err: HaltCollision}
-			e.cov(HaltCollision)
 		} else {
 			r = e.createMessage(&Message{Caller: tx.From, Self: addr, CodeAddr: addr, Value: tx.Value, Transfer: true,
 				Gas: gas, Create: true, Code: tx.Data})
